@@ -31,7 +31,7 @@ def cases(tier, seed):
     for j in range(n):
         out.append({"s": int(rng.integers(1 << 30)), "topology": TOPOLOGIES[j % 5], "repl": REPLS[(j // 5) % len(REPLS)], "cell": ["ortho", "tri+-+", "tri--+", "ortho"][(j // 3) % 4],
                     "replace_all": (j // 7) % 3 == 0, "ignore": (j // 2) % 4 == 0, "fraction": [1.0, 1.0, 0.5, 0.34, 0.75][(j // 11) % 5],
-                    "sample": ["first", "last", "real"][(j // 13) % 3]})
+                    "sample": ["first", "last", "real", "script_free", "script_conflict"][(j // 13) % 5]})
     # one atom claimed by 128..260 matches at once (a hub with that many like neighbours): counters and masks of one byte end here
     for j in range(3 if tier == "quick" else 60):
         out.append({"s": int(rng.integers(1 << 30)), "topology": "big_star", "repl": ["keep_rest_replace_first", "substitute_all", "empty"][j % 3], "cell": "ortho",
@@ -197,10 +197,98 @@ def make_repl(rng, pat, kind):
 AS_WRITTEN = [0]
 
 
+def _judge_with_unknown_selection(ctx, st, case, S, obs, found, shared, shared_search, nrep, mm, w, label):
+    """fraction < 1 and the selection itself was not observed. Sound whatever the code drew: an overlap error is wrong if no
+    selection of the required size overlaps - or, when nothing at all was drawn between the search and the error (the random
+    generators' states are unchanged), if some selection of that size is free of overlap, because the outcome then cannot
+    depend on the selection; a returned structure must be explained by some selection of the required size."""
+    import itertools
+    st.count("calls_judged_without_seeing_the_draw")
+    n = len(found)
+    x = case["fraction"] * n
+    ks = [k for k in range(n + 1) if abs(k - x) <= 0.5 + 1e-9]
+    rs = [set(m) if (nrep == 0 or case["replace_all"]) else {idx for j, idx in enumerate(m) if j not in shared_search} for m in found]
+    if n > 16:
+        st.count("not_judged.too_many_matches_for_unknown_selection")
+        return
+    subsets = [c for k in ks for c in itertools.combinations(range(n), k)]
+
+    def conflicts(c):
+        return any(rs[a] & rs[b] for a in c for b in c if a < b)
+
+    exc = obs["exception"]
+    if exc is not None:
+        if not isinstance(exc, mm.AtomsShouldNotBeDeletedTwice):
+            ctx.fail(label + "replacement raised %s: %s" % (type(exc).__name__, str(exc)[:160]), witness=w)
+        elif case["ignore"] or nrep == 0:
+            ctx.fail(label + "the overlap error was raised although %s" % ("the caller asked to ignore overlaps" if case["ignore"] else "the replacement is empty"), witness=w)
+        elif not any(conflicts(c) for c in subsets):
+            ctx.fail(label + "the overlap error was raised although no selection of %s of the %d matches removes an atom twice" % (ks, n), witness=w)
+        elif obs.get("drawn_after_search") is False and not all(conflicts(c) for c in subsets):
+            free = next(c for c in subsets if not conflicts(c))
+            ctx.fail(label + "the overlap error was raised before any selection was drawn (fraction %.3g of %d matches), although e.g. the selection %s removes no atom twice: "
+                     "the error does not depend on the matches selected for replacement" % (case["fraction"], n, [found[i] for i in free]), witness=w)
+        else:
+            st.count("dedicated_error_raised")
+            st.seen("outcome_class", "conflict/strict/nonempty")
+        return
+    out = obs["result"]
+    in_ids = [float(c) for c in S.charges]
+    kept = [float(c) for c in out.charges if float(c) >= 999]
+    gone = {i for i, c in enumerate(in_ids) if c not in set(kept)}
+    new_per_match = nrep if case["replace_all"] else nrep - len(shared)
+    ok = False
+    for c in subsets:
+        if (case["ignore"] or nrep == 0 or not conflicts(c)) and set().union(*[rs[i] for i in c]) == gone and len(out) == len(S) - len(gone) + new_per_match * len(c):
+            ok = True
+            share = any(set(found[a]) & set(found[b]) for a in c for b in c if a < b)
+            st.seen("outcome_class", "%s/%s/%s" % ("conflict" if conflicts(c) else ("share-only-retained" if share else "disjoint"), "ignore" if case["ignore"] else "strict", "empty" if nrep == 0 else "nonempty"))
+            break
+    if not ok or len(set(kept)) != len(kept):
+        ctx.fail(label + "the returned structure (atoms %s gone, %d atoms) is not explained by replacing any %s of the %d matches without removing an atom twice" %
+                 (sorted(gone), len(out), ks, n), witness=w)
+    st.count("conservation_checked")
+
+
+def _scripted_draw(case, S, P, pat, rep, mm, st):
+    """a draw chosen by the check: among the occurrences a preliminary search reports, a subset of the size the fraction asks for
+    whose removal sets are pairwise disjoint although other occurrences overlap ('script_free'), or one that contains an
+    overlapping pair ('script_conflict'). Falls back to a real draw when no such subset exists."""
+    import itertools
+    n0 = len(events.LOG)
+    try:
+        pre = mm.find_pattern_in_structure(S, P, atol=0.05)
+    except Exception:
+        return "real"
+    finally:
+        del events.LOG[n0:]     # the preliminary search is not part of the judged history
+    pre = [tuple(int(i) for i in m) for m in pre]
+    k = round(case["fraction"] * len(pre))
+    if k < 1 or len(pre) > 14:
+        return "real"
+    shared = replcase.shared_pairs(pat, rep)
+    shared_search = set() if case["replace_all"] else set(shared.values())
+    nrep = len(rep["elements"])
+    rs = [set(m) if (nrep == 0 or case["replace_all"]) else {idx for j, idx in enumerate(m) if j not in shared_search} for m in pre]
+    any_conflict = any(rs[a] & rs[b] for a in range(len(rs)) for b in range(a + 1, len(rs)))
+    want_conflict = case["sample"] == "script_conflict"
+    for comb in itertools.combinations(range(len(pre)), k):
+        c = any(rs[a] & rs[b] for a in comb for b in comb if a < b)
+        if c == want_conflict and (want_conflict or any_conflict):
+            comb = list(comb)
+            if case["s"] % 2:
+                comb.reverse()
+            st.count("scripted_draws_%s" % ("with_an_overlapping_pair" if want_conflict else "free_of_overlap_among_overlapping_occurrences"))
+            return ("script", comb)
+    return "real"
+
+
 def judge_call(ctx, st, case, S, P, R, pat, rep, mm, label=""):
     """one real call with the given objects, judged against the harness's removal-set oracle -> share_any"""
     events.SCHEDULE["sample"] = case["sample"]
     kw = dict(atol=0.05, replace_all=case["replace_all"], replace_fraction=case["fraction"])
+    if case["sample"].startswith("script") and case["fraction"] < 1.0:
+        events.SCHEDULE["sample"] = _scripted_draw(case, S, P, pat, rep, mm, st)
     # the flag in the forms a caller may have at hand: omitted / Python bool / numpy bool (a comparison result) / 0 or 1
     form = case["s"] % 4
     if case["ignore"]:
@@ -222,6 +310,10 @@ def judge_call(ctx, st, case, S, P, R, pat, rep, mm, label=""):
     shared = replcase.shared_pairs(pat, rep)
     shared_search = set() if case["replace_all"] else set(shared.values())
     nrep = len(rep["elements"])
+    if sel is None or obs.get("selection_inferred"):
+        # the draw was not seen at the site the harness can observe: judge by what must hold for whatever was drawn
+        _judge_with_unknown_selection(ctx, st, case, S, obs, found, shared, shared_search, nrep, mm, w, label)
+        return False, found, None, None, None, obs["exception"], w
     rsets = []
     for k in sel:
         if nrep == 0 or case["replace_all"]:
